@@ -26,9 +26,19 @@ def stepC15 (_ : Unit) (ws : List String) : Unit × String :=
               runScheduleP c taken idl sourceChecksUnderLock sched
             else "bad-op"
         | _, _, _, _, _ => "bad-op"
+    | ["regx", cap, tk, ids, pr, vs, sc] =>
+        -- expiry family: the table is full, slot `vs` (0-based) holds an account the clean-up before the lock tears
+        -- down; whether that clean-up writes the index is what the regenerated source facts say
+        match cap.toNat?, parseNats15 tk, parseNats15 ids, parseNats15 pr, vs.toNat?, parseNats15 sc with
+        | some c, some taken, some idl, some procs, some v, some sched =>
+            if procs.length == idl.length && idl.all (· ≠ 0) && v < c &&
+               sched.all (fun e => if e < 50 then e < idl.length else if e < 100 then e - 50 < idl.length else true) then
+              runScheduleX c taken idl sourceChecksUnderLock sourceCleanWritesIndex v sched
+            else "bad-op"
+        | _, _, _, _, _, _ => "bad-op"
     | ["exited", _] => "sem=1"     -- server processes holding no lock exit: the semaphore stays free (SEM_UNDO counts balance); judged by the oracle
     | ["peer", _] => "excluded"   -- mutual exclusion is a theorem (Props.mutual_exclusion); judged on the real code by the oracle
-    | ["facts"] => s!"checkUnderLock={sourceChecksUnderLock} wellFormed={wellFormedCalls Gen.Reg.setupNewUserCalls}"
+    | ["facts"] => s!"checkUnderLock={sourceChecksUnderLock} wellFormed={wellFormedCalls Gen.Reg.setupNewUserCalls} cleanWritesIndex={sourceCleanWritesIndex}"
     | _ => "bad-op"
   ((), out)
 
